@@ -38,6 +38,7 @@ writer of a string with that replacement is `goStrBody`, for the label.
 -/
 import Jsonapi.Model.JsonText
 import Jsonapi.Spec.JsonParse
+import Jsonapi.Model.Url
 namespace Jsonapi
 
 /-! ### decoded values -/
@@ -261,6 +262,11 @@ def labelDec (v : GoString) : Option GoString :=
   match Spec.parseJson (34 :: (v ++ [34])) with
   | some (.str s) => some s
   | _ => none
+
+/-- the label body as `URL.String` writes it into the `filter` parameter: `json.Marshal(label)`
+without the quotes, a leading `{` rewritten to backslash-u-0-0-7-b (url.go; `rewriteBrace` of
+Model/Url.lean) so that `NewSimpleURL` does not take the value for a filter object -/
+def labelBodyEmitted (l : GoString) : GoString := rewriteBrace (labelBody l)
 
 /-! ### domains of the comparison with the real code -/
 
